@@ -1,9 +1,55 @@
+import RsslVerif.Model.Compile
 import RsslVerif.Driver.Util
-/-! Line-protocol front end of the C17 model (stub until the model is built). -/
+/-! Line-protocol front end of the C17 model (pipeline selection loop). -/
 namespace RsslVerif.Driver.C17
+open RsslVerif.Gen.CompileTables RsslVerif.Model.Compile RsslVerif.Driver
+
+def parseStage (s : String) : Option Stage :=
+  [Stage.Vertex, .Task, .Mesh, .Pixel, .Compute].find? (fun st => st.name == s)
+
+def parseStages (s : String) : Option (List (Stage × String)) :=
+  sequenceOpt ((s.splitOn ",").map fun item =>
+    match item.splitOn "=" with
+    | [st, f] => (parseStage st).map (·, f)
+    | _ => none)
+
+/-- payload = (does the pipeline build on its own, its stages) -/
+def parsePipes (s : String) : Option (List (Pipeline (Bool × List (Stage × String)))) :=
+  if s.isEmpty then some [] else
+  sequenceOpt ((s.splitOn ";").map fun item =>
+    match item.splitOn ":" with
+    | [n, st] =>
+      let fails := n.endsWith "!"
+      let n := if fails then (n.dropEnd 1).toString else n
+      (parseStages st).map fun l => { name := n, payload := (!fails, l) }
+    | _ => none)
+
+def parseMode (s : String) : Option Mode :=
+  if s == "all" then some .all
+  else if s == "nopipeline" then some .noPipeline
+  else if s.startsWith "name=" then some (.named (s.drop 5).toString)
+  else none
+
+def showOut (stages : List (Stage × String)) : String :=
+  "[" ++ ",".intercalate (stages.map fun (s, f) => s.name ++ "(" ++ f ++ ")") ++ "]"
 
 def handle (op : String) (args : List String) : String :=
-  let _ := (op, args)
-  "unsupported-op"
+  match op, args with
+  | "C17.select", [tgt, mode, pipes, _seed, bare] =>
+    match parseMode mode, parsePipes pipes with
+    | some m, some ps =>
+      let msl := tgt == "msl"
+      let build : Option (Pipeline (Bool × List (Stage × String))) → Except Unit (List (Stage × String)) :=
+        fun p => match p with
+          | some p => if p.payload.1 then .ok (reportedStages msl p.payload.2) else .error ()
+          | none => if bare == "bare=ok" then .ok [] else .error ()
+      match compileLoop build ps m with
+      | .ok outs => "ok:" ++ String.join (outs.map showOut)
+      | .buildErr _ => "err:build"
+      | .errUnknown n => "err:unknown:" ++ n
+      | .errNone => "err:none"
+      | .panicMultiple => "panic:multiple"
+    | _, _ => "bad-request"
+  | _, _ => "unsupported-op"
 
 end RsslVerif.Driver.C17
